@@ -94,13 +94,16 @@ def _replay_chunk(args):
                     ref = min(math.sqrt(q[a][b]) for b in range(n) if b != a)
                     if abs(nd[a] - ref) > 1e-12 * max(1, ref):
                         fails.append("neighbor-distance")
-                if len({d["r"] for d in em_spec}) == 1:
-                    # tied radii: surface distance to the nearest neighbour = row minimum
-                    nds = em.get_neighbor_distances(subtract_radius=True)
-                    for a in range(n):
-                        ref = min(math.sqrt(q[a][b]) - 2 * em_spec[a]["r"] for b in range(n) if b != a)
-                        if abs(nds[a] - ref) > 1e-12 * max(1, abs(ref)):
-                            fails.append("neighbor-surface-distance")
+                # with subtract_radius the documented value is the surface distance to the (centre-)nearest
+                # neighbour; if several neighbours are equally near, any of them is accepted.  For tied
+                # radii this is the row minimum of the surface-distance matrix.
+                nds = em.get_neighbor_distances(subtract_radius=True)
+                for a in range(n):
+                    qmin = min(q[a][b] for b in range(n) if b != a)
+                    refs = [math.sqrt(q[a][b]) - em_spec[a]["r"] - em_spec[b]["r"]
+                            for b in range(n) if b != a and q[a][b] == qmin]
+                    if not any(abs(nds[a] - ref) <= 1e-12 * max(1, abs(ref)) for ref in refs):
+                        fails.append("neighbor-surface-distance")
             # ---- removal
             em.remove_overlapping(min_distance=M, grid=grid)
             ids = {id(o): i + 1 for i, o in enumerate(objs)}
@@ -241,6 +244,36 @@ def _random_chunk(seeds):
         em = Emulsion(objs, copy=False)
         res = {}
         try:
+            n = len(objs)
+            qf = [[float(d2(drops[a], drops[b])) if a != b else 0.0 for b in range(n)] for a in range(n)]
+            qfail = []
+            for sub in (False, True):
+                dm = em.get_pairwise_distances(subtract_radius=sub, grid=grid)
+                for a in range(n):
+                    if dm[a, a] != 0:
+                        qfail.append("pairwise-diagonal")
+                    for b in range(n):
+                        if a != b:
+                            ref = math.sqrt(qf[a][b]) - ((drops[a][1] + drops[b][1]) if sub else 0)
+                            if dm[a, b] != dm[b, a]:
+                                qfail.append("pairwise-asymmetric")
+                            if abs(dm[a, b] - ref) > 1e-9 * max(1, abs(ref)):
+                                qfail.append("pairwise-value")
+                            if sub and abs(ref) > 1e-9 and bool(objs[a].overlaps(objs[b], grid=grid)) != (ref < 0):
+                                qfail.append("overlaps-vs-surface-distance")
+            if not periodic and n >= 2:
+                nd = em.get_neighbor_distances()
+                nds = em.get_neighbor_distances(subtract_radius=True)
+                for a in range(n):
+                    qmin = min(qf[a][b] for b in range(n) if b != a)
+                    if abs(nd[a] - math.sqrt(qmin)) > 1e-9 * max(1, math.sqrt(qmin)):
+                        qfail.append("neighbor-distance")
+                    refs = [math.sqrt(qf[a][b]) - drops[a][1] - drops[b][1] for b in range(n)
+                            if b != a and qf[a][b] <= qmin * (1 + 1e-9) + 1e-300]
+                    if not any(abs(nds[a] - ref) <= 1e-9 * max(1, abs(ref)) for ref in refs):
+                        qfail.append("neighbor-surface-distance")
+            if qfail:
+                res["query_fails"] = sorted(set(qfail))
             em.remove_overlapping(min_distance=M, grid=grid)
             ids = {id(o): i + 1 for i, o in enumerate(objs)}
             res["out"] = [ids.get(id(o), 0) for o in em]
@@ -386,7 +419,7 @@ def run(out: core.Outcome) -> None:
         if "error" in res:
             out.violation({"random": c["input"], "seed": c["seed"], "failed_clauses": ["raised"], "error": res["error"]})
             continue
-        failed = [cl for cl in CLAUSES if not vj[cl]]
+        failed = [cl for cl in CLAUSES if not vj[cl]] + res.get("query_fails", [])
         if res.get("second") != res.get("out"):
             failed.append("second-call-removes")
         if failed:
